@@ -140,5 +140,12 @@ def make_pilot(pm, uid, state=rps.NEW):
     p._sub           = FakeSub()
     p._nodelist      = None
     p._tmgr          = None
+    # what Pilot.as_dict() (TaskManager.add_pilots) reads
+    for k in ('_endpoint_fs', '_resource_sandbox', '_session_sandbox',
+              '_pilot_sandbox', '_client_sandbox', '_pilot_jsurl',
+              '_pilot_jshop'):
+        setattr(p, k, ru.Url('file://localhost/tmp/rp.verif/%s%s' % (uid, k)))
+    p._log_msgs = p._stdout = p._stderr = None
+    p._resource_details = None
     pm._pilots[uid]  = p
     return p
